@@ -128,8 +128,13 @@ def rule_raise(repo):
                 a0 = subst(c.args[0], env)
                 if any(isinstance(n, ast.BinOp) and isinstance(n.op, ast.MatMult) for n in ast.walk(a0)):
                     okinds.add('orthogonality')
-                if any(isinstance(n, ast.Call) and dotted(n.func) in ('torch.det', 'torch.linalg.det') for n in ast.walk(a0)):
+                dets = [n for n in ast.walk(a0) if isinstance(n, ast.Call) and dotted(n.func) in ('torch.det', 'torch.linalg.det')]
+                if dets:
                     okinds.add('determinant')
+                    for dn in dets:
+                        if dn.args and any(isinstance(x, ast.BinOp) and isinstance(x.op, ast.MatMult) for x in ast.walk(dn.args[0])):
+                            res.add(Finding('C11.RAISE', f, 'the determinant test is applied to a product (`%s`), not to the matrix itself: det(R R^T) = '
+                                            'det(R)^2 cannot tell a reflection from a rotation' % src(dn)[:60].replace('$', ''), construct='det of product'))
     for k in ('orthogonality', 'determinant'):
         if k not in okinds:
             res.add(Finding('C11.RAISE', f, 'mat2SO3 no longer performs the %s test under check=True' % k, construct='missing ' + k))
